@@ -40,6 +40,10 @@ CHECKS = {
     text="(a) DictKeyValTransform.transform/reverse executed symbolically on values of n<=3 (thorough 4) unconstrained Latin-1 characters under exactly the property's restriction: z3 proves the value survives the key=value text on every path. (b) solver-driven enumeration of ConfigManager.save -> real file -> load over 2 formats x 4 load paths (with/without extension, used profile, never-used profile) x field-subset families x 3 value families with real consonance key objects, compared field by field with byte-identical keys. (c) crash injection at every write boundary of save (open/truncate, write with a solver-chosen persisted prefix, close, rename): the profile must load as the previous or the new configuration.",
     note="Trusted: json/base64 (real, concrete), file system below open/write/rename (rename atomic, write may persist any prefix), field-subset families instead of all 2^15 subsets (fields are filtered independently).",
     technique="symbolic execution of the key=value codec (z3, symbolic characters) + solver-driven configuration and crash-point enumeration on real files; concrete replay"),
+ "C20": dict(cat="model_checking", design="4/C20",
+    text="Token: AndroidYowsupEnv.getToken executed with SHA-1 as an uninterpreted incremental hash and the phone an abstract string of symbolic length 0..64: the result term equals b64(SHA1(opad||SHA1(ipad||sig||classes||phone))) built independently. Encoding: WARequest.urlencode/urlencodeParams on symbolic characters over all Unicode code points (UTF-8 length classes), bytes, ints, parameter lists <=3, equal to the independent reference encoder; exhaustive concrete single-code-point sweep with the real urllib. Encryption: encryptParams with X25519/AES-GCM/base64 as uninterpreted terms (DH commutativity): the server side decrypts to exactly the encoded parameter string, fresh ephemeral key per call. Every witness replayed with real hashlib/hmac, cryptography, python-axolotl.",
+    note="Trusted: models of sha1/X25519/AES-GCM/base64/urllib.quote (quote validated by the sweep); primitives themselves are outside. Strings longer than the bound rest on the encoder being per-character.",
+    technique="symbolic execution with hashes/ciphers as uninterpreted functions and characters as z3 integers; differential concrete replay against independent references"),
  "C15": dict(cat="model_checking", design="4/C15",
     text="Symbolic execution of the real mediacipher module with HKDF / AES-CBC / HMAC as uninterpreted terms (dec(enc(x))=x) and PKCS7 modelled exactly; the plaintext length L is a solver variable (0..80 quick, 0..4096 thorough; contents and key abstract). Obligations: decrypt(encrypt(p)) == p for every L and kind; the ciphertext term equals the independent reference layout (HKDF iv/key/mac key, always-padded CBC, 10-byte MAC over iv+ct); a flip at any symbolic position of ciphertext or tag, truncation, wrong key or wrong kind raises. Every model is replayed with the real cryptography library and compared byte for byte with ref/mediacipher_ref.py (own HKDF); the repository's fixture vector is checked against both.",
     note="Trusted: crypto models (ideal-primitive assumption for tamper detection: different MAC inputs give different MACs), PKCS7 model, z3; the real primitives are only exercised on the solver's witnesses and (thorough) every length 0..80.",
